@@ -39,7 +39,9 @@ Inductive outcome (A : Type) := Ok (a : A) | Err (e : err).
 Arguments Ok {A}. Arguments Err {A}.
 
 (* Which of the proposed repairs (proposed_fixes/C08-*.diff) the modelled code contains.  The pinned
-   tree has none of them; [cfg_current] is what the correspondence check runs. *)
+   tree has none of them.  Every theorem is parametric in the configuration; the correspondence check
+   is told the configuration of the tree it faces (probed by the harness on four fixed inputs, see
+   c08_impl.probe) and disagrees on the generated cases if the probe is wrong. *)
 Record cfg := mkcfg {
   fix_db_id : bool;          (* C08-db-prior-id: Prior rows store prior.id instead of prior.id_ (= message.id_) *)
   fix_loggaussian : bool;    (* C08-dict-loggaussian: LogGaussianPrior.dict writes mean and sigma *)
@@ -48,7 +50,6 @@ Record cfg := mkcfg {
 }.
 Definition cfg_pinned := mkcfg false false false false.
 Definition cfg_fixed := mkcfg true true true true.
-Definition cfg_current := cfg_pinned.
 
 Definition bind {A B} (x : outcome A) (f : A -> outcome B) : outcome B :=
   match x with Ok a => f a | Err e => Err e end.
@@ -325,6 +326,17 @@ Section C08.
   Definition rank (l : list nat) (x : nat) : nat := List.length (filter (fun y => Nat.ltb y x) (dedup l)).
 
   Definition norm (n : snode) : snode := rename_all (rank (nums n)) n.
+
+  (* renumbering by first occurrence: compares two models up to ANY injective renaming (dict form, whose
+     fresh ids are not required to keep any order) *)
+  Fixpoint nodup_first (seen l : list nat) : list nat :=
+    match l with
+    | [] => []
+    | x :: r => if existsb (Nat.eqb x) seen then nodup_first seen r else x :: nodup_first (x :: seen) r
+    end.
+  Fixpoint index_of (x : nat) (l : list nat) : nat :=
+    match l with [] => 0 | y :: r => if Nat.eqb x y then 0 else S (index_of x r) end.
+  Definition canon (n : snode) : snode := rename_all (fun x => index_of x (nodup_first [] (nums n))) n.
 End C08.
 
 Arguments mkspec {V}. Arguments EPrior {V}. Arguments EConst {V}. Arguments EBin {V}.
@@ -404,7 +416,7 @@ Record obs := {
 }.
 
 Inductive step := StepOk (f : form) (o : obs) | StepErr (f : form) (e : err).
-Record case := { c_init : obs; c_steps : list step }.
+Record case := { c_cfg : cfg; c_init : obs; c_steps : list step }.
 
 Definition view_ok (o : obs) : bool :=
   let n := tree float (o_state o) in
@@ -413,19 +425,22 @@ Definition view_ok (o : obs) : bool :=
   && list_eqb Nat.eqb (ordered_ids float n) (o_ids o)
   && ival_eqb (inst_from_paths float fbin n (o_pv o)) (o_inst o).
 
-Definition frt := rt float ffalsy cfg_current.
+Definition frt := rt float ffalsy.
 
 (* every step is checked against the model started from the PREVIOUS OBSERVED state *)
-Fixpoint check_steps (prev : fsnode) (l : list step) : bool :=
+Fixpoint check_steps (cf : cfg) (prev : fsnode) (l : list step) : bool :=
   match l with
   | [] => true
   | StepOk f o :: l' =>
-      match frt f prev with
-      | Ok s => snode_eqb (norm float s) (o_state o) && view_ok o && check_steps (o_state o) l'
+      match frt cf f prev with
+      | Ok s => (match f with
+                 | FDict => snode_eqb (canon float s) (canon float (o_state o))
+                 | _ => snode_eqb (norm float s) (o_state o)
+                 end) && view_ok o && check_steps cf (o_state o) l'
       | Err _ => false
       end
   | StepErr f e :: l' =>
-      match frt f prev with
+      match frt cf f prev with
       | Err e' => err_eqb e e' && match l' with [] => true | _ => false end
       | Ok _ => false
       end
@@ -433,4 +448,4 @@ Fixpoint check_steps (prev : fsnode) (l : list step) : bool :=
 
 Definition check_case (c : case) : bool :=
   snode_eqb (norm float (o_state (c_init c))) (o_state (c_init c))
-  && view_ok (c_init c) && check_steps (o_state (c_init c)) (c_steps c).
+  && view_ok (c_init c) && check_steps (c_cfg c) (o_state (c_init c)) (c_steps c).
